@@ -48,7 +48,7 @@ def handle (line : String) : String :=
     | "close-run" => handleClose args
     | "close-geom" => handleCloseGeom args
     | "sched-check" => handleSched args
-    | "apptitle" | "smdh-bits" | "tiled" | "seeddb" | "cfg-load" | "cfg-build" | "cfg-ops" | "lzss" | "lzss-enc" | "desc-rt" | "bits16" => handleCodec cmd args
+    | "apptitle" | "smdh-bits" | "tiled" | "seeddb" | "cfg-load" | "cfg-build" | "cfg-ops" | "lzss" | "lzss-enc" | "lzss-compress" | "desc-rt" | "bits16" => handleCodec cmd args
     | "ping" => "pong"
     | _ => "bad-cmd"
   | _ => "bad-line"
